@@ -26,4 +26,12 @@ def obligations(tier, seed=0):
         obs.append((FM + 'cmul', dict(prec=3, rnd='n', fn=fn, aspect='bits', **M1)))
     for fn in ('mpc_pos', 'mpc_neg', 'mpc_conjugate'):
         obs.append((FM + 'cunary', dict(zbc=[5, 9], zoff=1, prec=3, rnd='n', fn=fn, aspect='bits')))
+    # prec= / dps= / rounding= keywords of the libmp wrappers on every path (real kernel, ComplexResult fallback, complex argument)
+    for name in ('sqrt', 'ln', 'acos', 'asin', 'acosh', 'cbrt'):
+        for arg in ('outside', 'inside', 'complex'):
+            obs.append(('checks.fam_elem:wrap_kw', dict(name=name, kw=dict(prec=20), arg=arg)))
+    for arg in ('outside', 'inside', 'complex'):
+        obs.append(('checks.fam_elem:wrap_kw', dict(name='sqrt', kw=dict(dps=5), arg=arg)))
+        obs.append(('checks.fam_elem:wrap_kw', dict(name='ln', kw=dict(prec=10, rounding='f'), arg=arg)))
+        obs.append(('checks.fam_elem:wrap_kw', dict(name='acos', kw={}, arg=arg, ctxprec=30)))
     return obs
